@@ -62,7 +62,7 @@ class Wrapped:
         raise ValueError(i)
 
 
-def scenario(calls, close_before=False, via_eventloopthread=False, burst=1, hold=False, stopping=False):
+def scenario(calls, close_before=False, via_eventloopthread=False, burst=1, hold=False, stopping=False, notstarted=False):
     """calls: list of (kind, src) or (kind, src, look).  look = the loop on which the proxy attribute is looked up
     (default: the calling loop); a bound wrapper fetched on one loop and invoked from the other must behave like a
     call made from the invoking loop.  Returns {'caller': [...], 'owner': [...]}"""
@@ -70,6 +70,7 @@ def scenario(calls, close_before=False, via_eventloopthread=False, burst=1, hold
     obj = Wrapped()
     caller_log = []
     ready = threading.Event()
+    go = threading.Event()
     holder = {}
 
     def owner_main():
@@ -78,7 +79,12 @@ def scenario(calls, close_before=False, via_eventloopthread=False, burst=1, hold
         loop.set_exception_handler(lambda l, ctx: None)     # plain calls that raise are logged by the loop, not relayed
         obj.owner_ident = threading.get_ident()
         holder["loop"] = loop
-        loop.call_soon(ready.set)
+        if notstarted:
+            # the owner's loop exists (open, not closed) but starts running only after the calls were made: they are queued and run then
+            ready.set()
+            go.wait(30)
+        else:
+            loop.call_soon(ready.set)
         try:
             loop.run_forever()
         finally:
@@ -223,6 +229,12 @@ def scenario(calls, close_before=False, via_eventloopthread=False, burst=1, hold
                     await asyncio.sleep(0)
                 release.set()
                 await asyncio.gather(*futs)
+            elif tasks and notstarted:
+                futs = [asyncio.ensure_future(t) for t in tasks]
+                for _ in range(3):
+                    await asyncio.sleep(0)          # every call of the group has been made
+                go.set()
+                await asyncio.gather(*futs)
             elif tasks:
                 await asyncio.gather(*tasks)
         await asyncio.sleep(0.02)
@@ -294,13 +306,20 @@ def run(ctx: Ctx):
             if (len(calls) > 1 or closed or r == 0) and all(c[1] == "other" or not closed for c in calls):
                 traces.append(scenario(calls, close_before=closed, burst=burst, via_eventloopthread=True))
                 metas.append({"calls": calls, "closed": closed, "burst": burst, "rep": r, "elt": True})
+        # calls made while the owner's loop is open but has not started running yet: queued, executed once it runs
+        for kind in KINDS:
+            traces.append(scenario([(kind, "other")], notstarted=True))
+            metas.append({"calls": [(kind, "other")], "closed": False, "burst": 1, "rep": r, "notstarted": True})
+        calls = [(k, "other") for k in KINDS if k not in ("coroWait", "coroSlow")] * 2
+        traces.append(scenario(calls, burst=len(calls), notstarted=True))
+        metas.append({"calls": calls, "closed": False, "burst": len(calls), "rep": r, "notstarted": True})
         for calls, closed, burst in held:
             traces.append(scenario(calls, close_before=closed, burst=burst, hold=True))
             metas.append({"calls": calls, "closed": closed, "burst": burst, "rep": r, "hold": True})
     ctx.evaluations = len(traces)
     ctx.distinct_nontrivial = len({str((m["calls"], m["closed"], m["burst"])) for m in metas})
     ctx.rule = ("every method kind (coroutine returning / raising, plain returning nothing / a value / raising, non-callable attribute) x caller loop "
-                "{owner's own loop, another thread's loop} (also as bursts queued while the owner's loop is busy, with failing kinds in every position) x loop on which the proxy attribute was looked up {same, the other one} x owner-loop state {running, closed} x owner {a plain thread with its own loop, bellows' EventLoopThread started with start() and closed with force_stop()} as single calls, and bursts of 10 and 40/100 concurrent mixed calls; "
+                "{owner's own loop, another thread's loop} (also as bursts queued while the owner's loop is busy, with failing kinds in every position) x loop on which the proxy attribute was looked up {same, the other one} x owner-loop state {running, open but not started yet, closed} x owner {a plain thread with its own loop, bellows' EventLoopThread started with start() and closed with force_stop()} as single calls, and bursts of 10 and 40/100 concurrent mixed calls; "
                 f"each scenario repeated {reps} times with real threads; distinct = distinct (calls, owner state, burst)")
     ctx.add_sample({"meta": metas[0], "trace": traces[0]})
 
@@ -316,6 +335,6 @@ def run(ctx: Ctx):
 def replay(ctx: Ctx, data):
     m = data["replay"]["meta"]
     tr = scenario([tuple(c) for c in m["calls"]], close_before=m["closed"], burst=m["burst"], hold=bool(m.get("hold")),
-                  via_eventloopthread=bool(m.get("elt")), stopping=bool(m.get("stopping")))
+                  via_eventloopthread=bool(m.get("elt")), stopping=bool(m.get("stopping")), notstarted=bool(m.get("notstarted")))
     ctx.validate_traces("Trace_ThreadProxy", [tr], metas=[m], label="thread proxy", length_of=length_of, dfs=True)
     ctx.add_sample(tr)
